@@ -4,7 +4,7 @@ from ..model import norm, AnalysisError, walk_no_nested
 
 DECIDES = ('in SplineGeometry.__eq__ every defining component (parametric dimension, rationality, sizes, degrees, knot '
            'vectors, homogeneous control points) is compared between self and other and every such comparison result '
-           'can reach `return False` (EQ1/KD3); tolerance bounds are magnitudes, not digit counts (KD2); every '
+           'can reach `return False` (EQ1/KD3), and an index used to walk the coordinates of compared elements runs over the length of those elements (EQ1 extent: the weight slot is compared too); tolerance bounds are magnitudes, not digit counts (KD2); every '
            'comparison incl. its tolerance is symmetric under exchanging the operands (EQ3); __ne__ negates __eq__ (EQ4); '
            'no subclass overrides __eq__/__ne__ (EQ5); __deepcopy__ copies every attribute through copy.deepcopy and pre-seeds the memo only for self and the cache, so a copy carries the compared components of its source (IV4).')
 NOT_DECIDED = 'nothing numerical is involved; transitivity is not an equivalence property of a tolerance comparison and is not claimed.'
@@ -130,6 +130,7 @@ class EqFlow(object):
         self.compared = {}     # component -> [compare text]
         self.compares = []     # (Compare node, component)
         self.ever_carried = {}  # local -> components it carried at any time
+        self.index_extent = {}  # loop index -> (range extent expr, its Origin)
         self.other = None
         a = fn.args.args
         if len(a) != 2:
@@ -198,6 +199,16 @@ class EqFlow(object):
             self.run.ob('EQ3.symmetry', key, isinstance(n.ops[0], (ast.Eq, ast.NotEq)), 'length comparison')
             return
         self.compared.setdefault(comp, []).append(norm(n))
+        for sub in [x for x in ast.walk(n) if isinstance(x, ast.Subscript) and isinstance(x.slice, ast.Name) and x.slice.id in self.index_extent]:
+            so = self.origin_of(sub.value)
+            ext, eo = self.index_extent[sub.slice.id]
+            if so is None or so.comp != comp:
+                continue
+            okx = eo is not None and eo.is_len and eo.comp == comp
+            self.run.ob('EQ1.compared-over-full-extent', '%s :: [%s] index %s' % (self.qual, comp, sub.slice.id), okx,
+                        'index runs over the length of the compared component' if okx else
+                        'index `%s` runs over range(%s), which is not the length of the compared %s: the remaining coordinates (for rational shapes the '
+                        'weight slot) are never compared, so shapes differing only there compare equal' % (sub.slice.id, norm(ext), comp))
         if form == 'direct':
             ok = isinstance(n.ops[0], (ast.Eq, ast.NotEq))
             self.run.ob('EQ3.symmetry', key, ok, 'ordering comparison between self and other components is not symmetric' if not ok else 'eq/ne is symmetric')
@@ -295,6 +306,12 @@ class EqFlow(object):
                 self.origin[target.id] = o
             else:
                 self.origin.pop(target.id, None)
+            # for i in range(E) with i indexing elements of a compared component: E must be the length of (part of) that component,
+            # otherwise some coordinates (e.g. the weight slot when E is the spatial dimension) are never compared
+            if isinstance(it, ast.Call) and isinstance(it.func, ast.Name) and it.func.id == 'range' and it.args:
+                ext = it.args[-1]
+                eo = self.origin_of(ext)
+                self.index_extent[target.id] = (ext, eo)
 
 
 def check(m, run):
@@ -331,6 +348,21 @@ def check(m, run):
                    'read inside the loop that re-initialises it' if reads else
                    'local `%s` carries comparison verdicts (%s), is re-initialised in every iteration of this loop but never read inside it: only the last iteration can influence the result'
                    % (name, sorted(fl.ever_carried[name])))
+    # positive control for the extent rule (zero instances on a tree that compares whole points through zip)
+    from .. import report as _rep
+    ctl_src = ('def __eq__(self, other):\n    for sk, ok in zip(self._control_points, other._control_points):\n'
+               '        for idx in range(self.dimension):\n            if abs(sk[idx] - ok[idx]) >= 1e-7:\n                return False\n    return True\n')
+    ctl_fn = ast.parse(ctl_src).body[0]
+    for par in ast.walk(ctl_fn):
+        for ch in ast.iter_child_nodes(par):
+            ch._sa_parent = par
+    ctl_run = _rep.Run('C19', 'quick', 0, quiet=True)
+    ctl = EqFlow(ctl_fn, ctl_run, digits, 'control')
+    ctl.block(ctl_fn.body)
+    if not any(o.rule == 'EQ1.compared-over-full-extent' and not o.ok for o in ctl_run.obs):
+        raise AnalysisError('EQ1 extent rule: positive control not detected (the rule is broken)')
+    run.note('EQ1.compared-over-full-extent', eq.key, 'positive control (index over range(self.dimension)) detected; instances on this tree: %d'
+             % sum(1 for o in run.obs if o.rule == 'EQ1.compared-over-full-extent'))
     # EQ4: __ne__
     ne = ci.methods.get('__ne__')
     if ne is None:
